@@ -9,6 +9,7 @@ import (
 	_ "verifharness/props/c05"
 	_ "verifharness/props/c06"
 	_ "verifharness/props/c07"
+	_ "verifharness/props/c08"
 	_ "verifharness/props/c09"
 	_ "verifharness/props/c10"
 	_ "verifharness/props/c11"
